@@ -78,6 +78,7 @@ func Controls(id, repo, verif, tier string, r *core.Report) {
 			skipped = append(skipped, c.ID+" (edited program does not type-check: "+firstLine(err.Error())+")")
 			continue
 		}
+		p.ApplyAnchors(filepath.Join(verif, "tables", "anchors.json"))
 		sub := core.NewReport()
 		func() {
 			defer func() { recover() }()
